@@ -387,6 +387,8 @@ func (im *Impl) Exec(line string) (out string) {
 		return im.stash()
 	case "rbabort":
 		return im.rbAbort()
+	case "rbfinish":
+		return im.rbFinish()
 	case "rbreload":
 		return im.rbReload()
 	case "lunmap":
